@@ -2,14 +2,15 @@
    fickling/loader.py that matters for it (the checked loader re-enters the pickle module through
    the CURRENT binding of pickle.loads).
 
-   State: the four process-global bindings pickle.load, pickle.loads, _pickle.load, _pickle.loads,
-   each one of
-       Orig     the function found there before fickling was imported
+   State: the five process-global bindings pickle.load, pickle.loads, _pickle.load, _pickle.loads,
+   pickle.Unpickler, each one of
+       Orig     what was found there before fickling was imported
        Checked  fickling.loader.load          (run_hook / always_check_safety / context __enter__)
-       ML a     the closure new_load / new_loads of activate_safe_ml_environment(also_allow=a)
-   plus the stack of open safety contexts, each holding the pickle.load binding its
-   FicklingContextManager captured in __init__ ([with fickling.check_safety():] = construct +
-   __enter__, so the capture happens immediately before the entry).
+       ML a     the closures new_load / new_loads / class SafeMLUnpickler of
+                activate_safe_ml_environment(also_allow=a)
+   plus the stack of open safety contexts, each holding the five bindings its
+   FicklingContextManager saved in __enter__ (and restores, all of them, in __exit__).
+   Constructing a manager ([HMake]) saves nothing.
 
    A pickle is abstracted to what the two protections look at: the verdict of the static analysis
    (an input: flagged = severity > LIKELY_SAFE, C02/C10) and the globals it resolves, in order.
@@ -25,17 +26,29 @@ Inductive binding :=
 | Checked
 | ML (adds : list gname).
 
+(* what one FicklingContextManager.__enter__ saves *)
+Record saved := mkS {
+  s_pl : binding;
+  s_pls : binding;
+  s_cl : binding;
+  s_cls : binding;
+  s_pu : binding
+}.
+
 Record hstate := mkH {
   pl : binding;            (* pickle.load *)
   pls : binding;           (* pickle.loads *)
   cl : binding;            (* _pickle.load *)
   cls : binding;           (* _pickle.loads *)
-  ctxs : list binding      (* open contexts, innermost first: self.original_pickle_load *)
+  pu : binding;            (* pickle.Unpickler *)
+  ctxs : list saved        (* open contexts, innermost first: what each saved on entry *)
 }.
 
-Definition h_init : hstate := mkH Orig Orig Orig Orig [].
+Definition snapshot (s : hstate) : saved := mkS (pl s) (pls s) (cl s) (cls s) (pu s).
 
-Inductive entry := PLoad | PLoads | CLoad | CLoads.
+Definition h_init : hstate := mkH Orig Orig Orig Orig Orig [].
+
+Inductive entry := PLoad | PLoads | CLoad | CLoads | PUnp.
 
 Record pickle := mkP {
   flagged : bool;          (* check_safety(...).severity > LIKELY_SAFE *)
@@ -46,23 +59,25 @@ Inductive hop :=
 | HArm                              (* fickling.always_check_safety() / hook.run_hook() *)
 | HActivate (adds : list gname)     (* hook.activate_safe_ml_environment(also_allow=adds) *)
 | HRemove                           (* hook.remove_hook() = deactivate_safe_ml_environment() *)
-| HEnter                            (* cm = fickling.check_safety(); cm.__enter__() *)
+| HEnter                            (* cm.__enter__() of a new or an already constructed manager *)
 | HLeave                            (* cm.__exit__(None, None, None) of the innermost context *)
 | HLeaveExc                         (* cm.__exit__(exc_type, exc, tb): the body raised *)
-| HProbe (e : entry) (p : pickle).  (* a load of p through entry point e *)
+| HProbe (e : entry) (p : pickle)   (* a load of p through entry point e *)
+| HMake.                            (* cm = fickling.check_safety(): constructed, not entered *)
 
 Definition hstep (s : hstate) (o : hop) : hstate :=
   match o with
-  | HArm => mkH Checked (pls s) (cl s) (cls s) (ctxs s)
-  | HActivate a => mkH (ML a) (ML a) (ML a) (ML a) (ctxs s)
-  | HRemove => mkH Orig Orig Orig Orig (ctxs s)
-  | HEnter => mkH Checked (pls s) (cl s) (cls s) (pl s :: ctxs s)
+  | HArm => mkH Checked (pls s) (cl s) (cls s) (pu s) (ctxs s)
+  | HActivate a => mkH (ML a) (ML a) (ML a) (ML a) (ML a) (ctxs s)
+  | HRemove => mkH Orig Orig Orig Orig Orig (ctxs s)
+  | HEnter => mkH Checked (pls s) (cl s) (cls s) (pu s) (snapshot s :: ctxs s)
   | HLeave | HLeaveExc =>
       match ctxs s with
       | [] => s                                   (* nothing to leave: not a history *)
-      | saved :: r => mkH saved (pls s) (cl s) (cls s) r
+      | v :: r => mkH (s_pl v) (s_pls v) (s_cl v) (s_cls v) (s_pu v) r
       end
   | HProbe _ _ => s
+  | HMake => s
   end.
 
 Fixpoint hrun (s : hstate) (h : list hop) : hstate :=
@@ -72,7 +87,7 @@ Fixpoint hrun (s : hstate) (h : list hop) : hstate :=
   end.
 
 Definition binding_of (s : hstate) (e : entry) : binding :=
-  match e with PLoad => pl s | PLoads => pls s | CLoad => cl s | CLoads => cls s end.
+  match e with PLoad => pl s | PLoads => pls s | CLoad => cl s | CLoads => cls s | PUnp => pu s end.
 
 (* ---- what a load does ---- *)
 Inductive result :=
@@ -115,23 +130,33 @@ Definition probe (s : hstate) (e : entry) (p : pickle) : outcome :=
 
 (* ---- reference notions used by the theorems (specification side) ---- *)
 
-(* which mechanisms the user has switched on and not switched off, independent of the bindings *)
+(* which mechanisms are switched on, independent of the bindings.  Scoped: what is switched on or
+   off inside a context ends with the context -- leaving re-instates what was on at the entry. *)
+Definition gpair := (bool * option (list gname))%type.
+
 Record ghost := mkG {
-  g_armed : bool;                     (* always_check_safety() since the last remove_hook() *)
-  g_ml : option (list gname);         (* additions of the ML environment since the last removal *)
-  g_depth : nat                       (* open contexts *)
+  g_armed : bool;                     (* always_check_safety() not undone by remove_hook() *)
+  g_ml : option (list gname);         (* additions of the ML environment in force, if any *)
+  g_stack : list gpair                (* open contexts, innermost first: what was on at the entry *)
 }.
 
-Definition g_init : ghost := mkG false None 0.
+Definition g_init : ghost := mkG false None [].
+Definition g_depth (g : ghost) : nat := List.length (g_stack g).
+Definition gsnap (g : ghost) : gpair := (g_armed g, g_ml g).
 
 Definition gstep (g : ghost) (o : hop) : ghost :=
   match o with
-  | HArm => mkG true (g_ml g) (g_depth g)
-  | HActivate a => mkG (g_armed g) (Some a) (g_depth g)
-  | HRemove => mkG false None (g_depth g)
-  | HEnter => mkG (g_armed g) (g_ml g) (S (g_depth g))
-  | HLeave | HLeaveExc => mkG (g_armed g) (g_ml g) (pred (g_depth g))
+  | HArm => mkG true (g_ml g) (g_stack g)
+  | HActivate a => mkG (g_armed g) (Some a) (g_stack g)
+  | HRemove => mkG false None (g_stack g)
+  | HEnter => mkG (g_armed g) (g_ml g) (gsnap g :: g_stack g)
+  | HLeave | HLeaveExc =>
+      match g_stack g with
+      | [] => g
+      | p :: r => mkG (fst p) (snd p) r
+      end
   | HProbe _ _ => g
+  | HMake => g
   end.
 
 Fixpoint grun (g : ghost) (h : list hop) : ghost :=
@@ -153,32 +178,15 @@ Fixpoint depth_ok (d : nat) (h : list hop) : option nat :=
 Definition balanced (h : list hop) : bool :=
   match depth_ok 0 h with Some 0 => true | _ => false end.
 
-(* no activation / removal inside *)
-Fixpoint quiet (h : list hop) : bool :=
+(* hooks are REMOVED only while no context is open (and every leave is matched); anything may be
+   switched on anywhere *)
+Fixpoint rm_outside (d : nat) (h : list hop) : bool :=
   match h with
   | [] => true
-  | (HActivate _ | HRemove) :: _ => false
-  | _ :: r => quiet r
-  end.
-
-(* mechanisms are switched on and off only while no context is open (and every leave is matched) *)
-Fixpoint disciplined (d : nat) (h : list hop) : bool :=
-  match h with
-  | [] => true
-  | HEnter :: r => disciplined (S d) r
-  | (HLeave | HLeaveExc) :: r => match d with 0 => false | S d' => disciplined d' r end
-  | (HArm | HActivate _ | HRemove) :: r => Nat.eqb d 0 && disciplined d r
-  | HProbe _ _ :: r => disciplined d r
-  end.
-
-(* weaker: only SWITCHING ON (arm / activate) is confined to depth 0; removals may happen anywhere *)
-Fixpoint on_outside (d : nat) (h : list hop) : bool :=
-  match h with
-  | [] => true
-  | HEnter :: r => on_outside (S d) r
-  | (HLeave | HLeaveExc) :: r => match d with 0 => false | S d' => on_outside d' r end
-  | (HArm | HActivate _) :: r => Nat.eqb d 0 && on_outside d r
-  | (HRemove | HProbe _ _) :: r => on_outside d r
+  | HEnter :: r => rm_outside (S d) r
+  | (HLeave | HLeaveExc) :: r => match d with 0 => false | S d' => rm_outside d' r end
+  | HRemove :: r => Nat.eqb d 0 && rm_outside d r
+  | (HArm | HActivate _ | HProbe _ _ | HMake) :: r => rm_outside d r
   end.
 
 Definition is_orig (b : binding) : bool := match b with Orig => true | _ => false end.
@@ -210,16 +218,16 @@ Definition show_outcome (o : outcome) : string :=
    | RecursionErr => "X"
    end) ++ nat_to_string (List.length (snd o)).
 
-Definition all_entries : list entry := [PLoad; PLoads; CLoad; CLoads].
+Definition all_entries : list entry := [PLoad; PLoads; CLoad; CLoads; PUnp].
 
 Definition show_state (s : hstate) : string :=
   show_binding (pl s) ++ " " ++ show_binding (pls s) ++ " " ++ show_binding (cl s) ++ " " ++
-  show_binding (cls s) ++ " d" ++ nat_to_string (List.length (ctxs s)).
+  show_binding (cls s) ++ " " ++ show_binding (pu s) ++ " d" ++ nat_to_string (List.length (ctxs s)).
 
 Definition show_probes (s : hstate) (ps : list pickle) : string :=
   join " " (map (fun e => join "," (map (fun p => show_outcome (probe s e p)) ps)) all_entries).
 
-(* one line per step: bindings, depth, the probe matrix (4 entry points x the given pickles) and,
+(* one line per step: bindings, depth, the probe matrix (5 entry points x the given pickles) and,
    for an explicit probe operation, its own outcome *)
 Fixpoint show_run (s : hstate) (ps : list pickle) (h : list hop) : list string :=
   match h with
